@@ -22,12 +22,13 @@ import (
 )
 
 type filler struct {
-	r     *rand.Rand
-	nonil bool     // populate every optional section (used when the writer requires one that was left out)
-	big   int      // how many big items (long text, wide table) this instance may still get
-	wide  int      // k > 0: the k-th wire-boundary instance of its type: every list / table whose count travels in one byte gets a count at a boundary of that byte (the k-th of the list, in turn)
-	min   *minPlan // not nil: minimal instance (gen "minimal")
-	light bool     // small tagged values, no random boundary counts (gen "life")
+	r      *rand.Rand
+	nonil  bool     // populate every optional section (used when the writer requires one that was left out)
+	big    int      // how many big items (long text, wide table) this instance may still get
+	wide   int      // k > 0: the k-th wire-boundary instance of its type: every list / table whose count travels in one byte gets a count at a boundary of that byte (the k-th of the list, in turn)
+	min    *minPlan // not nil: minimal instance (gen "minimal")
+	light  bool     // small tagged values, no random boundary counts (gen "life")
+	sparse bool     // a scalar leaf is the zero value of its type with probability 1/2 (gen "env")
 }
 
 // A MINIMAL instance: every element has the smallest encoding its type allows
@@ -316,6 +317,10 @@ func (g *filler) fillStruct(v reflect.Value) {
 }
 
 func (g *filler) scalar(v reflect.Value, key string) {
+	if g.sparse && g.r.Intn(2) == 0 {
+		v.Set(reflect.Zero(v.Type()))
+		return
+	}
 	switch v.Kind() {
 	case reflect.Bool:
 		v.SetBool(g.r.Intn(2) == 1 && g.min == nil)
@@ -592,7 +597,7 @@ func (g *filler) hook(p interface{}, depth int) {
 			}
 			pt := ts[g.r.Intn(len(ts))]
 			ip := pt.mk()
-			sub := &filler{r: g.r, nonil: g.nonil, min: g.min, light: g.light}
+			sub := &filler{r: g.r, nonil: g.nonil, min: g.min, light: g.light, sparse: g.sparse}
 			sub.populate(ip, depth-1)
 			inner[i] = ip.(pack.Pack)
 		}
